@@ -204,6 +204,23 @@ def f(a):
     return b
 """, "f", """
 def f(a):
+    _double__y = a + a
+    _double__ret = _double__y
+    b = _double__ret
+    return b
+"""),
+    ("N9 keeps an alias local when the argument is not an unrebound parameter of the caller", """
+def _double(x):
+    y = x + x
+    return y
+
+def f(a):
+    a = a.strip()
+    b = _double(a)
+    return b
+""", "f", """
+def f(a):
+    a = a.strip()
     _double__x = a
     _double__y = _double__x + _double__x
     _double__ret = _double__y
